@@ -127,7 +127,9 @@ func (o c04Op) String() string {
 	return "?"
 }
 
-func (o c04Op) answers() bool { return o.Kind == 'P' || o.Kind == 'k' || o.Kind == 'i' || o.Kind == 'f' || o.Kind == 'b' }
+func (o c04Op) answers() bool {
+	return o.Kind == 'P' || o.Kind == 'k' || o.Kind == 'i' || o.Kind == 'f' || o.Kind == 'b'
+}
 
 // History builder.
 type c04Hist struct {
@@ -376,7 +378,7 @@ func c04Ref(h *c04Hist) (aliased, strict []string) {
 
 // features of a history for the distribution / non-triviality rule.
 type c04Feat struct {
-	sets, lookups, found                            int
+	sets, lookups, found                             int
 	overwrite, aba, idThenKey, soloAfterBind, oldRef bool
 }
 
